@@ -1108,8 +1108,41 @@ func (vc *FuncVC) implementsFacts() []string {
 			out = append(out, fmt.Sprintf("(assert (= (%s %d %d) %s))", f, cid, iid, v))
 		}
 	}
+	// interface subsumption: whatever implements I implements every J whose methods I has
+	for iid, it := range vc.ifaceTypes {
+		ii, ok := it.Underlying().(*types.Interface)
+		if !ok {
+			continue
+		}
+		for jid, jt := range vc.ifaceTypes {
+			ji, ok := jt.Underlying().(*types.Interface)
+			if !ok || iid == jid {
+				continue
+			}
+			if types.Implements(it, ji) || subsumes(ii, ji) {
+				out = append(out, fmt.Sprintf("(assert (forall ((t Int)) (! (=> (%s t %d) (%s t %d)) :pattern ((%s t %d)))))", f, iid, f, jid, f, iid))
+			}
+		}
+	}
 	sort.Strings(out)
 	return out
+}
+
+// subsumes: every method of j is a method of i with an identical signature.
+func subsumes(i, j *types.Interface) bool {
+	for k := 0; k < j.NumMethods(); k++ {
+		m := j.Method(k)
+		found := false
+		for l := 0; l < i.NumMethods(); l++ {
+			if n := i.Method(l); n.Name() == m.Name() && types.Identical(n.Type(), m.Type()) {
+				found = true
+			}
+		}
+		if !found {
+			return false
+		}
+	}
+	return true
 }
 
 // ---------- strings, slices, maps ----------
@@ -1224,15 +1257,13 @@ func (vc *FuncVC) execRange(x *ssa.Range) {
 		it.domAt = Select(vc.cur.get(dc), m, arraySort(ks, SBool))
 		it.valAt = Select(vc.cur.get(vcN), m, arraySort(ks, vs))
 		// ghost enumeration of the key set: keyAt / idxOf bijection (DESIGN §2.3)
-		n := vc.declare(fmt.Sprintf("card!%s", x.Name()), SInt)
-		keyAt := vc.declFun(fmt.Sprintf("keyAt!%s!%s", vc.shortFn(), x.Name()), []string{SInt}, ks)
-		idxOf := vc.declFun(fmt.Sprintf("idxOf!%s!%s", vc.shortFn(), x.Name()), []string{ks}, SInt)
+		names := vc.rangeNames(x)
+		n, keyAt, idxOf := names.n, names.keyAt, names.idxOf
 		vc.assume(Cmp("<=", IntLit(0), n))
 		vc.assume(Implies(Eq(m, IntLit(0)), Eq(n, IntLit(0))))
 		dom := it.domAt
 		vc.assume(T(fmt.Sprintf("(forall ((i Int)) (! (=> (and (<= 0 i) (< i %s)) (and (select %s (%s i)) (= (%s (%s i)) i))) :pattern ((%s i))))", n.S, dom.S, keyAt, idxOf, keyAt, keyAt), SBool))
 		vc.assume(T(fmt.Sprintf("(forall ((k %s)) (! (=> (select %s k) (and (<= 0 (%s k)) (< (%s k) %s) (= (%s (%s k)) k))) :pattern ((%s k))))", ks, dom.S, idxOf, idxOf, n.S, keyAt, idxOf, idxOf), SBool))
-		vc.iterCard(x, n, keyAt, idxOf)
 	} else {
 		it.isStr = true
 		vc.abstract("range-string")
@@ -1247,11 +1278,36 @@ type iterNames struct {
 	keyAt, idxOf string
 }
 
-func (vc *FuncVC) iterCard(x *ssa.Range, n Term, keyAt, idxOf string) {
+// rangeNames: the ghost names of a range-over-map iteration (its cardinality and the
+// keyAt / idxOf enumeration), declared once per Range instruction. The facts that tie
+// them to the map are assumed where the range executes.
+func (vc *FuncVC) rangeNames(x *ssa.Range) iterNames {
 	if vc.iterNames == nil {
 		vc.iterNames = map[ssa.Value]iterNames{}
 	}
-	vc.iterNames[x] = iterNames{n, keyAt, idxOf}
+	if nm, ok := vc.iterNames[x]; ok {
+		return nm
+	}
+	mt := x.X.Type().Underlying().(*types.Map)
+	ks := vc.sortOf(mt.Key())
+	n := vc.declareGlobal(fmt.Sprintf("card!%s", x.Name()), SInt)
+	keyAt := vc.declFun(fmt.Sprintf("keyAt!%s!%s", vc.shortFn(), x.Name()), []string{SInt}, ks)
+	idxOf := vc.declFun(fmt.Sprintf("idxOf!%s!%s", vc.shortFn(), x.Name()), []string{ks}, SInt)
+	nm := iterNames{n, keyAt, idxOf}
+	vc.iterNames[x] = nm
+	return nm
+}
+
+// staticIter: iteration info for a range-over-map loop whose Range instruction has not
+// been executed yet on the way to the current point (names only).
+func (vc *FuncVC) staticIter(x *ssa.Range) (*iterInfo, iterNames) {
+	mt, ok := x.X.Type().Underlying().(*types.Map)
+	if !ok {
+		return nil, iterNames{}
+	}
+	it := &iterInfo{mapType: mt}
+	it.comp = vc.comp(fmt.Sprintf("IT!%s", x.Name()), SInt, true)
+	return it, vc.rangeNames(x)
 }
 
 func (vc *FuncVC) shortFn() string {
@@ -1495,8 +1551,8 @@ func (vc *FuncVC) immutableCell(fv *ssa.FreeVar) (Term, bool) {
 			idx = i
 		}
 	}
-	// the closure itself must only read it
-	if !onlyLoads(fv) {
+	// the closure itself (and the closures it hands the cell to) must only read it
+	if !onlyLoadsDeep(fv) {
 		return Term{}, false
 	}
 	// find the cell in the parent and check every other user
@@ -1517,6 +1573,32 @@ func (vc *FuncVC) immutableCell(fv *ssa.FreeVar) (Term, bool) {
 	vc.cellConst[fv] = t
 	vc.note("captured variable %s is never reassigned after capture: read as a constant", fv.Name())
 	return t, true
+}
+
+// onlyLoadsDeep: the cell is only read, here and in every closure it is captured by.
+func onlyLoadsDeep(v ssa.Value) bool {
+	refs := v.Referrers()
+	if refs == nil {
+		return false
+	}
+	for _, r := range *refs {
+		switch u := r.(type) {
+		case *ssa.DebugRef:
+		case *ssa.UnOp:
+			if u.Op != token.MUL {
+				return false
+			}
+		case *ssa.MakeClosure:
+			for i, b := range u.Bindings {
+				if b == v && !onlyLoadsDeep(u.Fn.(*ssa.Function).FreeVars[i]) {
+					return false
+				}
+			}
+		default:
+			return false
+		}
+	}
+	return true
 }
 
 func onlyLoads(v ssa.Value) bool {
@@ -1565,7 +1647,7 @@ func cellImmutableIn(cell ssa.Value, parent *ssa.Function) bool {
 				closures = append(closures, u)
 				for i, b := range u.Bindings {
 					if b == c {
-						if !onlyLoads(u.Fn.(*ssa.Function).FreeVars[i]) {
+						if !onlyLoadsDeep(u.Fn.(*ssa.Function).FreeVars[i]) {
 							return false
 						}
 					}
@@ -1599,9 +1681,35 @@ func cellImmutableIn(cell ssa.Value, parent *ssa.Function) bool {
 		return true
 	case *ssa.FreeVar:
 		// a cell passed down from an enclosing closure: must be read-only there too
-		return onlyLoadsOrCapture(c)
+		return onlyLoadsDeep(c) && cellOfFreeVarImmutable(c)
 	}
 	return false
+}
+
+// cellOfFreeVarImmutable: the cell a free variable stands for is immutable in the
+// function that created the closure.
+func cellOfFreeVarImmutable(fv *ssa.FreeVar) bool {
+	fn := fv.Parent()
+	parent := fn.Parent()
+	if parent == nil {
+		return false
+	}
+	idx := -1
+	for i, f := range fn.FreeVars {
+		if f == fv {
+			idx = i
+		}
+	}
+	for _, b := range parent.Blocks {
+		for _, in := range b.Instrs {
+			if mc, ok := in.(*ssa.MakeClosure); ok && mc.Fn == fn {
+				if !cellImmutableIn(mc.Bindings[idx], parent) {
+					return false
+				}
+			}
+		}
+	}
+	return true
 }
 
 func onlyLoadsOrCapture(v ssa.Value) bool {
